@@ -351,4 +351,143 @@ theorem phase2_rem (hS : Static c w addrs own') (hP : Phase2 c w addrs own' G x)
 
 end
 
+-- ------------------------------------------------------------------ (d) histories: block notifications first
+
+/-- is the event a removal step? -/
+def IEv.isRem : IEv → Bool
+  | .rem => true
+  | _ => false
+
+/-- the domain of `remove_after_follower_projects`, threaded along the history (`started`: a removal step has run):
+    a removal step needs the pending-side clause of the in-progress invariant; a tip notification — ANY announced node
+    state, extension or reorganisation — must come before the first removal step; unconfirmed transactions and restarts
+    (the best block the follower reports is the stored one) may come anywhere -/
+def DomA (limit : Nat) (c : Ctx) (w : Wid) (addrs : List Addr) (G : Block) : Bool → ISt → List IEv → Prop
+  | _, _, [] => True
+  | started, x, ev :: evs =>
+    (match ev with
+      | .rem => PendOK addrs x.s x.node.chain
+      | .notify n b => started = false ∧ NodeOK c.own G x.node.known n b ∧ IdInj (x.node.chain ++ n.chain) ∧
+          (b.height = 0 → b.prev ≠ x.v.best.hash)
+      | .recv _ => True
+      | .restart v => v.best = x.v.best) ∧
+    ∀ x', istep limit c w addrs x ev = some x' → DomA limit c w addrs G (started || ev.isRem) x' evs
+
+section
+variable {limit : Nat} {c : Ctx} {w : Wid} {addrs : List Addr} {own' : Own} {G : Block}
+
+/-- nothing happens after the finishing step -/
+theorem irun_fin {x x' : ISt} {evs : List IEv} (hf : x.fin = true) (h : irun limit c w addrs x evs = some x') :
+    x' = x := by
+  cases evs with
+  | nil => simp only [irun, Option.some.injEq] at h; exact h.symm
+  | cons ev evs =>
+    have hn : istep limit c w addrs x ev = none := by cases ev <;> simp [istep, hf]
+    simp [irun, hn] at h
+
+theorem domA_run (hS : Static c w addrs own') (ws' : List Wid) (hws : ∀ y ∈ ws', y ∈ c.wallets) :
+    ∀ (evs : List IEv) (started : Bool) (x xe : ISt),
+      (started = false → Phase1 c w G x) → (started = true → Phase2 c w addrs own' G x) →
+      DomA limit c w addrs G started x evs → irun limit c w addrs x evs = some xe → xe.fin = true →
+      Inv { c with own := own', wallets := ws', node := xe.node } xe.s xe.node.chain := by
+  intro evs
+  induction evs with
+  | nil =>
+    intro started x xe h1 h2 _ h hfin
+    simp only [irun, Option.some.injEq] at h
+    subst h
+    exfalso
+    cases started with
+    | false => have := (h1 rfl).cf.fin; rw [hfin] at this; cases this
+    | true =>
+      obtain ⟨_, _, _, _, _, hcf⟩ := h2 rfl
+      have := hcf.fin; rw [hfin] at this; cases this
+  | cons ev evs ih =>
+    intro started x xe h1 h2 hD h hfin
+    obtain ⟨hev, hdom⟩ := hD
+    simp only [irun] at h
+    cases hs : istep limit c w addrs x ev with
+    | none => rw [hs] at h; cases h
+    | some x1 =>
+      rw [hs] at h
+      have hdom' := hdom x1 hs
+      cases ev with
+      | rem =>
+        have hcore : (x1.fin = false → Phase2 c w addrs own' G x1) ∧
+            (x1.fin = true → ∀ ws', (∀ y ∈ ws', y ∈ c.wallets) →
+              Inv { c with own := own', wallets := ws', node := x1.node } x1.s x1.node.chain) := by
+          cases started with
+          | false => exact phase1_rem hS (h1 rfl) hev hs
+          | true => exact phase2_rem hS (h2 rfl) hev hs
+        cases hf1 : x1.fin with
+        | false =>
+          have hd : DomA limit c w addrs G true x1 evs := by
+            cases started <;> exact hdom'
+          exact ih true x1 xe (fun h => by cases h) (fun _ => hcore.1 hf1) hd h hfin
+        | true =>
+          have := irun_fin hf1 h
+          subst this
+          exact hcore.2 hf1 ws' hws
+      | notify n b =>
+        obtain ⟨hst, hN, hinj, hg0⟩ := hev
+        subst hst
+        obtain ⟨x1', hs', hP'⟩ := phase1_notify (limit := limit) (addrs := addrs) hS.keys (h1 rfl) hN hinj hg0
+        rw [hs] at hs'
+        injection hs' with hs'
+        subst hs'
+        exact ih false x1 xe (fun _ => hP') (fun h => by cases h) hdom' h hfin
+      | recv t =>
+        cases started with
+        | false => exact ih false x1 xe (fun _ => phase1_recv (h1 rfl) hs) (fun h => by cases h) hdom' h hfin
+        | true => exact ih true x1 xe (fun h => by cases h) (fun _ => phase2_recv (h2 rfl) hs) hdom' h hfin
+      | restart v =>
+        cases started with
+        | false => exact ih false x1 xe (fun _ => phase1_restart hev (h1 rfl) hs) (fun h => by cases h) hdom' h hfin
+        | true => exact ih true x1 xe (fun h => by cases h) (fun _ => phase2_restart hev (h2 rfl) hs) hdom' h hfin
+
+/-- **the follower first, then the removal steps**: from a store that follows the chain with `w` flagged, any history
+    inside `DomA` — tip notifications for ANY announced node states (extensions, reorganisations) before the first
+    removal step, unconfirmed transactions and restarts anywhere, any number of removal steps — that ends with the
+    finishing step leaves C01's invariant for the table without `w`, on the chain the follower was last told about -/
+theorem remove_after_follower_projects {x0 x : ISt} {evs : List IEv} {ws' : List Wid}
+    (hP : Phase1 c w G x0) (hS : Static c w addrs own') (hD : DomA limit c w addrs G false x0 evs)
+    (hrun : irun limit c w addrs x0 evs = some x) (hfin : x.fin = true) (hws : ∀ y ∈ ws', y ∈ c.wallets) :
+    Inv { c with own := own', wallets := ws', node := x.node } x.s x.node.chain :=
+  domA_run hS ws' hws evs false x0 x (fun _ => hP) (fun h => by cases h) hD hrun hfin
+
+/-- **the hypotheses of `InterleavedProjects` give `Phase1`** — with two more: `hbalw` (C01's `Inv.bal` speaks of READY
+    wallets only; the flagged wallet's own balance entry is still its ledger total: `inv_flag_to_fj`) and `hrne` (some
+    wallet is ready — otherwise the follower skips blocks altogether) -/
+theorem phase1_of_inv {x0 : ISt} (hKN : KeysNodup c.own) (H : RemHyp c w addrs own' c.node.chain)
+    (hg : GoodChain c.node.chain) (hgen : c.node.chain[0]? = some G)
+    (hnode : x0.node = c.node) (hfin : x0.fin = false) (hbest : x0.v.best = tipMeta c.node.chain)
+    (hI : Inv c x0.s c.node.chain) (hn : KeysNodup x0.s.credits)
+    (hflag : AMap.get x0.s.status w = some ⟨none, true⟩)
+    (hothers : ∀ a w' ch, AMap.get c.own a = some (w', ch) → w' ≠ w →
+      (readyWallets x0.s c.wallets).contains w' = true)
+    (hbalw : AMap.get x0.s.balance w = some (totalU (bookOf c.p c.own c.node.chain).L w))
+    (hrne : (readyWallets x0.s c.wallets).isEmpty = false) : Phase1 c w G x0 := by
+  obtain ⟨s, v, node, fin⟩ := x0
+  simp only at hnode hfin hbest hI hn hflag hothers hbalw hrne
+  subst hnode
+  have hAR : AllReady (ownR c.own w) (readyWallets s c.wallets) := by
+    intro a w' ch ha
+    have hsub := ownR_sub hKN w a
+    rw [ha] at hsub
+    cases hga : AMap.get c.own a with
+    | none => rw [hga] at hsub; cases hsub
+    | some e =>
+      rw [hga] at hsub
+      by_cases hx : e.1 ≠ w
+      · have hd : decide (e.1 ≠ w) = true := decide_eq_true hx
+        simp only [Option.filter, hd, if_true] at hsub
+        have hx' : e = (w', ch) := (Option.some.inj hsub).symm
+        subst hx'
+        exact hothers a w' ch hga hx
+      · simp [Option.filter, hx] at hsub
+  exact ⟨fj_ctx (c := c) rfl rfl rfl (inv_to_fj hKN hI H.valid H.heights hg.nonempty hflag hbalw hAR hrne), hn,
+    ⟨hbest, hfin, hg, H.valid, hgen, H.known⟩⟩
+
+end
+
 end MW.Lemmas.RemoveInterleave
